@@ -77,7 +77,18 @@ def main():
         rc_patched, out_patched = run([PY, demo], cwd=wt, env=env, timeout=600)
         meta["ran"].append({"cmd": "demo with patch", "rc": rc_patched,
                             "tail": out_patched.strip().splitlines()[-3:]})
-        if a.skip_suite:
+        prev = {}
+        pm = os.path.join(HERE, "seeded", "%s-%s" % (a.prop, a.k), "meta.json")
+        if os.path.exists(pm):
+            with open(pm) as f:
+                prev = json.load(f)
+        if a.skip_suite and prev.get("suite_passes_patched") is not None:
+            # the suite was run with this patch by an earlier invocation: keep its record
+            suite_ok = prev["suite_passes_patched"]
+            kept = [r for r in prev.get("ran", []) if r["cmd"].startswith("whole test suite")]
+            meta["ran"].extend(kept)
+            tail = kept[0]["tail"] if kept else "recorded earlier"
+        elif a.skip_suite:
             suite_ok, tail = None, "skipped"
         else:
             t0 = time.time()
